@@ -2182,6 +2182,14 @@ def m_stat_is(eng, args, kwargs, node, frame):
     return VBool(and_const(t, 0o170000) == want)
 
 
+@model("stat.S_IMODE")
+def m_stat_imode(eng, args, kwargs, node, frame):
+    t = as_int(eng, args[0])
+    if t is None:
+        return eng.opaque_call("stat.S_IMODE(opaque)", [], node, may_raise=False, havoc_args=False)
+    return VInt(t % 4096)
+
+
 @model("stat.S_IFMT")
 def m_stat_ifmt(eng, args, kwargs, node, frame):
     t = as_int(eng, args[0])
